@@ -24,6 +24,7 @@ type Verdict struct {
 	Desc       string   // canonical descriptor for distinctness ("" = JSON of the case)
 	NonTrivial bool     // by the part's stated rule
 	Labels     []string // classification of the case, for the histogram
+	Counts     map[string]int64 // extra counters (e.g. records inside a grouped case)
 }
 
 // Failf builds a failing verdict.
@@ -130,6 +131,9 @@ func (p Part[C]) finish(rec *Recorder, c C, v Verdict) {
 		desc = string(b)
 	}
 	rec.Case(desc, v.NonTrivial, func() any { return c }, v.Labels...)
+	for k, n := range v.Counts {
+		rec.Count(k, n)
+	}
 }
 
 func (p Part[C]) exec(t *testing.T, prop string) {
